@@ -425,6 +425,9 @@ func render(t *tape.Tape, ws *Workspace, f *File, o Options) {
 		w("edition = \"2023\";\n\n")
 	}
 	w("package " + f.Package + ";\n\n")
+	if !o.LintClean && t.Draw("ws.fileopts", 3) == 2 {
+		w(fmt.Sprintf("option java_package = \"com.%s\";\noption go_package = \"example.com/%s;pb\";\noption java_multiple_files = true;\n\n", f.Package, strings.ReplaceAll(f.Package, ".", "/")))
+	}
 	for _, imp := range f.Imports {
 		if imp.Public {
 			w("import public \"" + imp.Path + "\";\n")
@@ -483,6 +486,20 @@ func render(t *tape.Tape, ws *Workspace, f *File, o Options) {
 	}
 	for i := range f.Imports {
 		f.Imports[i].Used = credited[i]
+	}
+	if !o.LintClean && t.Draw("ws.rich", 3) == 2 {
+		// more descriptor shapes: map, oneof, nested message, reserved ranges and names
+		w(fmt.Sprintf("  map<string, int64> counts = %d;\n", num))
+		num++
+		w(fmt.Sprintf("  oneof choice {\n    string text = %d;\n    int32 code = %d;\n  }\n", num, num+1))
+		num += 2
+		w(fmt.Sprintf("  message Inner {\n    %sbool flag = 1;\n  }\n  %sInner inner = %d;\n", label, label, num))
+		num++
+		if f.Syntax == "editions" {
+			w(fmt.Sprintf("  reserved %d to %d;\n  reserved old_name, older_name;\n", num+10, num+12))
+		} else {
+			w(fmt.Sprintf("  reserved %d to %d;\n  reserved \"old_name\", \"older_name\";\n", num+10, num+12))
+		}
 	}
 	if ws.Planted == f {
 		f.ErrorLine = line
